@@ -223,7 +223,7 @@ pub fn gen_case(seed: u64, id: usize) -> (Target, &'static str, String) {
             }
         }
         Target::DataLoader => {
-            let base = *rng.pick(&["set 4096", "db 7", "db -1", "db [5]", "db [7 , 3]", "db \"text\"", "dw 65535", "dw [3]", "dw [-2 , 4]", "dw \"ab\"", "set 65535", "db [255 , 65535]", "dw [1 , 65535]", "db [65535]", "dw [65535]"]);
+            let base = *rng.pick(&["set 4096", "db 7", "db -1", "db [5]", "db [7 , 3]", "db \"text\"", "dw 65535", "dw [3]", "dw [-2 , 4]", "dw \"ab\"", "dw \"wrap around the end\"", "db \"a string of some length\"", "set 65535", "db [255 , 65535]", "dw [1 , 65535]", "db [65535]", "dw [65535]"]);
             let s = match rng.below(4) {
                 0 => base.to_string(),
                 1 => {
@@ -276,10 +276,19 @@ fn run_inproc(target: Target, text: &str) -> (Option<String>, &'static str) {
                 if !pre.is_empty() {
                     let _ = data_parse_one(vm, &mut ctr, pre);
                 }
-                match data_parse_one(vm, &mut ctr, text) {
-                    Err(e) if e.starts_with("PANIC") => return (Some(e), "panic"),
-                    Ok(()) => worst = (None, "accepted"),
-                    Err(_) => {}
+                // ... and from even and odd counters that put the definition across the last byte of memory / of the segment
+                for start in [usize::MAX, 1, 9, 14, 15, 65521, 65534, 65535] {
+                    if start != usize::MAX {
+                        if pre.is_empty() {
+                            continue;
+                        }
+                        ctr = start;
+                    }
+                    match data_parse_one(vm, &mut ctr, text) {
+                        Err(e) if e.starts_with("PANIC") => return (Some(e), "panic"),
+                        Ok(()) => worst = (None, "accepted"),
+                        Err(_) => {}
+                    }
                 }
             }
             worst
